@@ -93,7 +93,8 @@ def rt : Handler :=
   mkHandler (do let v ← rdVLA; let r ← rdVLA; pure (v, r)) rdRtObs
     (fun (v, r) => rtModel v r)
     (fun (v, r) o => rtPredR v r o)
-    (fun (v, _) => decide v.WF)
+    -- C19 quantifies over the valid allocations AND over the invalid ones Marshal must refuse
+    (fun (v, _) => decide v.WF || Rtp.Pred.C19.mustReject v)
     (fun (v, _) _ => if bigRate v then some "c19_bitrate_2p56" else none)
 
 /-- `c19.dec <receiver> <bytes> => <DRes>` -/
